@@ -636,6 +636,46 @@ def system_info(path):
     return info
 
 
+MOTOR_LIST = ("self.motor_status = []", "for __ in range(n_motors):\n    self.motor_status.append(MotorStatus())")
+
+
+def motor_list_check(path):
+    """SimpleAxisStatus.__init__ builds one fresh MotorStatus per motor (no aliasing): the two
+    statements are recognised verbatim and nothing else touches self.motor_status"""
+    tree = ast.parse(open(path).read())
+    cls = [n for n in tree.body if isinstance(n, ast.ClassDef) and n.name == 'SimpleAxisStatus'][0]
+    init = [f for f in cls.body if isinstance(f, ast.FunctionDef) and f.name == '__init__'][0]
+    if [a.arg for a in init.args.args] != ['self', 'n_motors']:
+        fail(path, 'SimpleAxisStatus.__init__ arguments')
+    texts = [ast.unparse(st) for st in init.body]
+    touching = [t for t in texts if 'motor_status' in t]
+    if tuple(touching) != MOTOR_LIST:
+        fail(os.path.basename(path) + ':SimpleAxisStatus.__init__',
+             'the motor status list is not built as one fresh MotorStatus per motor', '\n'.join(touching))
+    for node in ast.walk(tree):
+        if isinstance(node, (ast.Assign, ast.AugAssign)):
+            tg = node.targets if isinstance(node, ast.Assign) else [node.target]
+            for t in tg:
+                if 'motor_status' in ast.unparse(t) and ast.unparse(node) != MOTOR_LIST[0]:
+                    fail(path, 'motor_status rebound or modified', ast.unparse(node))
+
+
+def mode_codes(path):
+    """keys of MasterAxisStatus.mode_commands: the documented mode-command codes"""
+    tree = ast.parse(open(path).read())
+    cls = [n for n in tree.body if isinstance(n, ast.ClassDef) and n.name == 'MasterAxisStatus'][0]
+    for st in cls.body:
+        if isinstance(st, ast.Assign) and ast.unparse(st.targets[0]) == 'mode_commands':
+            d = lit(st.value, path)
+            if not isinstance(d, dict) or not all(isinstance(k, int) and not isinstance(k, bool) and
+                                                  isinstance(v, str) for k, v in d.items()):
+                fail(path, 'mode_commands is not a literal {int: str} dictionary')
+            if d.get(0) != '_ignore':
+                fail(path, 'mode_commands[0] is not the ignore command')
+            return sorted(d)
+    fail(path, 'MasterAxisStatus.mode_commands not found')
+
+
 def simple_axis_defaults(path):
     """SimpleAxisStatus.__init__: self.min_pos / self.max_pos defaults (ints)"""
     tree = ast.parse(open(path).read())
@@ -669,6 +709,8 @@ def recover(repo):
     update_status_check(os.path.join(acu, 'axis_status.py'))
     info = system_info(os.path.join(acu, '__init__.py'))
     info['axis_default'] = simple_axis_defaults(os.path.join(acu, 'axis_status.py'))
+    motor_list_check(os.path.join(acu, 'axis_status.py'))
+    info['mode_codes'] = mode_codes(os.path.join(acu, 'axis_status.py'))
     # acu_utils.py holds encoders only: no status writes
     for extra in ('acu_utils.py',):
         p = os.path.join(acu, extra)
@@ -705,6 +747,7 @@ def table_text(tables, info, modname):
     out.append('Definition block_order : list block_id := [BGS; BAZ; BEL; BCW; BMotors BAZ; BMotors BEL; '
                'BMotors BCW; BPS; BFS].')
     out.append('Definition clock_read : nat * nat := (%d, %d)%%nat.' % info['clock_read'])
+    out.append('Definition mode_codes : list Z := %s.' % zl(info['mode_codes']))
     return '\n'.join(out) + '\n'
 
 
